@@ -16,8 +16,9 @@ def _sha(s):
     return hashlib.sha256(s.encode()).hexdigest()[:16]
 
 
-DUR_KINDS = ['none', 'sd', 'tt', 'mt', 'ttmt', 'nopayload', 'sd+tt']
-PARAS = ['plain text', '', None, '  padded  ', '(technical note)', '<angle note>', '(half', 'half)', ' (spaced note) ', 'Ünïcödé ☃', '   ']
+DUR_KINDS = ['none', 'sd', 'tt', 'mt', 'ttmt', 'nopayload', 'sd+tt', 'zero']
+PARAS = ['plain text', '', None, '  padded  ', '(technical note)', '<angle note>', '(half', 'half)', ' (spaced note) ', 'Ünïcödé ☃', '   ',
+         '(mixed one>', '<mixed two)', '\t', ' \n ']
 
 
 def story(sid, dur='sd', started=None, ended=None, items=(), paras=(), n=0):
@@ -30,6 +31,8 @@ def story(sid, dur='sd', started=None, ended=None, items=(), paras=(), n=0):
         pl += '<MediaTime>%s</MediaTime>' % (4.5 + n)
     if dur == 'sd+tt':
         pl = '<StoryDuration>%d</StoryDuration>' % (20 + n) + pl
+    if dur == 'zero':
+        pl += '<TextTime>0</TextTime><MediaTime>0</MediaTime>'
     if started:
         pl += '<StoryStarted>%s</StoryStarted>' % started
     if ended:
@@ -206,7 +209,7 @@ def gen_ros(tier, rng):
             for es in ('2020-01-01T10:00:00', None):
                 out.append(ro_doc([story('A', d, st_, en_, n=1)], es))
     # sequences of stories with mixed durations
-    kinds = ['sd', 'ttmt', 'mt', 'none'] if tier == 'quick' else DUR_KINDS
+    kinds = ['sd', 'ttmt', 'zero', 'none'] if tier == 'quick' else DUR_KINDS
     for n in (0, 2, 3):
         for combo in itertools.product(kinds, repeat=n):
             if n == 3 and tier == 'quick' and rng.random() < 0.5:
@@ -217,9 +220,11 @@ def gen_ros(tier, rng):
     out.append(ro_doc([story('A', 'sd', n=1), story('B', 'sd', n=2), story('A', 'sd', n=4)]))
     out.append(ro_doc([story('A', 'sd', n=1), '<story><storyID/></story>', story('B', 'tt', n=2)]))
     # bodies
-    items = [item('1'), item('2', full=False), item('3', note='a note'), item('4', full=False, note='n2')]
+    items = [item('1'), item('2', full=False), item('3', note='a note'), item('4', full=False, note='n2'),
+             '<item><itemID>5</itemID><mosExternalMetadata><mosPayload><other>no note here</other></mosPayload></mosExternalMetadata></item>',
+             '<item><itemID>6</itemID><mosExternalMetadata><mosSchema>s</mosSchema></mosExternalMetadata></item>']
     for k in range(0, len(PARAS), 3):
-        out.append(ro_doc([story('A', 'sd', items=items[:2], paras=PARAS[k:k + 3]), story('B', 'tt', items=items[2:], paras=PARAS[k + 1:k + 5], n=3)]))
+        out.append(ro_doc([story('A', 'sd', items=items[:2] + items[4:], paras=PARAS[k:k + 3]), story('B', 'tt', items=items[2:], paras=PARAS[k + 1:k + 5], n=3)]))
     out.append(ro_doc([story('A', 'sd', items=items, paras=PARAS)]))
     return out
 
@@ -591,14 +596,17 @@ def search_C18(tier, rng):
         with warnings.catch_warnings():
             warnings.simplefilter('ignore')
             res = []
-            for mk in (lambda: MosCollection.from_strings(docs, allow_incomplete=False), lambda: MosCollection.from_files(paths),
-                       lambda: MosCollection.from_s3(bucket_name='bk', prefix='pre/')):
-                mc = mk()
-                mc.merge(strict=False)
-                res.append(str(mc))
+            for nm, mk in (('strings', lambda: MosCollection.from_strings(docs, allow_incomplete=False)), ('files', lambda: MosCollection.from_files(paths)),
+                           ('s3', lambda: MosCollection.from_s3(bucket_name='bk', prefix='pre/'))):
+                try:
+                    mc = mk()
+                    mc.merge(strict=False)
+                    res.append(str(mc))
+                except Exception as e:
+                    res.append('%s: %s' % (type(e).__name__, e))
                 n += 1
             if len(set(res)) != 1:
-                fail('collections built from strings, files and S3 keys over the same contents merge to different results', 'collections')
+                fail('collections built from strings, files and S3 keys over the same contents give different results: %s' % [r[:60] for r in res], 'collections')
         # listing: every key with the suffix under the prefix, across pages
         for page_size in (1, 2, 3, 50):
             for nkeys in (0, 1, 2, 5, 7):
@@ -742,6 +750,39 @@ def search_C19(tier, rng):
                         fail('file written by -o differs from the serialisation of the merged collection', argv)
                 elif exp_str not in out or out.strip() != exp_str.strip():
                     fail('stdout of merge differs from the serialisation of the merged collection', argv)
+        # merge from a (fake) bucket: every combination of -s -i -n
+        saved = s3mod.s3
+        try:
+            for sname, lst in (('complete', ['ro', 'append', 'move', 'end']), ('incomplete', ['ro', 'append', 'swap'])):
+                objects = {}
+                for k in lst:
+                    objects['pre/%s.mos.xml' % k] = docs[k].encode('utf-8')
+                    objects['pre/%s.alt' % k] = docs[k].encode('utf-8')
+                objects['pre/zzz.txt'] = b'junk'
+                for sfx, inc, ns in _it.product((None, '.mos.xml', '.alt'), (False, True), (False, True)):
+                    s3mod.s3 = FakeS3(objects, 2)
+                    argv = ['merge', '-b', 'bk', '-p', 'pre/'] + (['-s', sfx] if sfx else []) + (['-i'] if inc else []) + (['-n'] if ns else [])
+                    n += 1
+                    code, out, err = run_cli(argv)
+                    exp_err, exp_str = None, None
+                    try:
+                        with warnings.catch_warnings():
+                            warnings.simplefilter('ignore')
+                            kw = dict(bucket_name='bk', prefix='pre/', allow_incomplete=inc)
+                            if sfx:
+                                kw['suffix'] = sfx
+                            mc = MosCollection.from_s3(**kw)
+                            mc.merge(strict=not ns)
+                        exp_str = str(mc)
+                    except Exception as e:
+                        exp_err = e
+                    if exp_err is not None:
+                        if code != 2:
+                            fail('merge from a bucket of an erroneous collection (%s) returned %r' % (type(exp_err).__name__, code), argv)
+                    elif code not in (None, 0) or out.strip() != exp_str.strip():
+                        fail('merge from a bucket (%s) returned %r / output differs from the library result (stderr %s)' % (sname, code, err[:80]), argv)
+        finally:
+            s3mod.s3 = saved
     finally:
         import shutil
         shutil.rmtree(tmp)
@@ -754,3 +795,79 @@ def search_C19(tier, rng):
 def replay_C19(prop, f):
     r = search_C19('thorough', None)
     return any(x['input_sha'] == f['input_sha'] for x in r['failures'])
+
+
+# ------------------------------------------------------------------ C13 histories: re-use of a message object
+def c13_history_cases():
+    base = dict(stories=['A', 'B', 'C'], meta_layout='all', items={'A': ['1', '2']})
+    yield 'StoryAppend', dict(new=['N1']), [('ItemDelete', dict(story='N1', ids=['n1'])), ('ItemInsert', dict(story='N1', target=None, new=['z9']))], base
+    yield 'StoryInsert', dict(target='B', new=['N1', 'N2']), [('ItemDelete', dict(story='N1', ids=['n1']))], base
+    yield 'StoryReplace', dict(target='B', new=['N1']), [('ItemInsert', dict(story='N1', target='n1', new=['z9']))], base
+    yield 'EAStoryInsert', dict(target='B', new=['N1']), [('EAItemDelete', dict(story='N1', ids=['n1']))], base
+    yield 'EAStoryReplace', dict(target='B', new=['N1']), [('ItemDelete', dict(story='N1', ids=['n1']))], base
+    yield 'StorySend', dict(target='A'), [('ItemDelete', dict(story='A', ids=['s1'])), ('ItemInsert', dict(story='A', target=None, new=['z9']))], base
+    yield 'ItemInsert', dict(story='A', target='2', new=['n1']), [('ItemReplace', dict(story='A', target='n1', new=['z9'])), ('ItemDelete', dict(story='A', ids=['n1']))], base
+    yield 'ItemReplace', dict(story='A', target='2', new=['n1']), [('ItemDelete', dict(story='A', ids=['n1']))], base
+    yield 'EAItemInsert', dict(story='A', target='2', new=['n1']), [('ItemDelete', dict(story='A', ids=['n1']))], base
+    yield 'EAItemReplace', dict(story='A', target='2', new=['n1']), [('ItemDelete', dict(story='A', ids=['n1']))], base
+    yield 'RunningOrderReplace', dict(new=['X1', 'X2']), [('ItemDelete', dict(story='X1', ids=['r1'])), ('StoryDelete', dict(ids=['X2']))], base
+    yield 'MetaDataReplace', dict(body='<roSlug>m1</roSlug><mosExternalMetadata><mosSchema>http://x/ro</mosSchema><mosPayload><a>7</a></mosPayload></mosExternalMetadata>'), \
+        [('MetaDataReplace', dict(body='<roSlug>m2</roSlug>'))], base
+    yield 'RunningOrderEnd', {}, [], base
+
+
+def check_c13_history(kind, a, later, ro_spec):
+    from scenarios import ro_xml
+    mx = msg(kind, **a)[0]
+    viol = []
+    with warnings.catch_warnings():
+        warnings.simplefilter('ignore')
+        m = MosFile.from_string(mx)
+        before = str(m)
+        ro1 = RunningOrder.from_string(ro_xml(**ro_spec))
+        ro1 += m
+        for k2, a2 in later:
+            try:
+                ro1 += MosFile.from_string(msg(k2, **a2)[0])
+            except Exception:
+                pass
+        if str(m) != before:
+            viol.append('a later merge into the running order changed the message object')
+        # what the message object exposes must still be what a fresh parse exposes
+        fresh = MosFile.from_string(mx)
+        for acc in ('story', 'stories', 'source_stories', 'items'):
+            if hasattr(type(m), acc):
+                try:
+                    va, vb = getattr(m, acc), getattr(fresh, acc)
+                    sa = [str(x) for x in (va if isinstance(va, (list, tuple)) else [va]) if x is not None]
+                    sb = [str(x) for x in (vb if isinstance(vb, (list, tuple)) else [vb]) if x is not None]
+                    if sa != sb:
+                        viol.append('%s.%s of the re-used message object differs from a fresh parse after later merges' % (kind, acc))
+                except Exception:
+                    pass
+        ro2 = RunningOrder.from_string(ro_xml(**ro_spec))
+        ro3 = RunningOrder.from_string(ro_xml(**ro_spec))
+        ro2 += m
+        ro3 += MosFile.from_string(mx)
+        if str(ro2) != str(ro3):
+            viol.append('merging the re-used message object gives a different result from merging a fresh parse')
+        ids1 = {id(e) for e in ro1.xml.iter()}
+        if any(id(e) in ids1 for e in ro2.xml.iter()):
+            viol.append('two running orders share elements through the message object')
+    return viol
+
+
+def search_C13_history():
+    n = 0
+    failures = []
+    for kind, a, later, ro_spec in c13_history_cases():
+        n += 1
+        try:
+            viol = check_c13_history(kind, a, later, ro_spec)
+        except Exception as e:
+            viol = ['harness: %s %s' % (type(e).__name__, e)]
+        for w in viol[:1]:
+            failures.append({'property': 'C13', 'fn': 'mosromgr.mostypes.%s.merge' % kind, 'kind': kind, 'args': a, 'later': [[k, x] for k, x in later],
+                             'ro_spec': ro_spec, 'history': True, 'what': '%s: %s' % (kind, w), 'input_sha': _sha(json.dumps([kind, a])),
+                             'api': 'ro1 += m; later merges into ro1; ro2 += m (same object) vs ro3 += fresh parse'})
+    return n, failures
